@@ -5,7 +5,10 @@
 tier="${1:-quick}"
 cd /verif || exit 1
 out=/verif/seeded/CATCHES.tsv
+# rows of other tiers (e.g. the thorough-only catches) are kept
+keep=$(grep -v '^#' $out 2>/dev/null | awk -F'\t' -v t="$tier" '$3!=t')
 echo -e "# property\tmutant\ttier\texit\tviolations\tfirst signature" > $out
+[ -n "$keep" ] && echo "$keep" >> $out
 for d in /verif/seeded/C*-m*; do
   id=$(basename $d | cut -d- -f1); m=$(basename $d | cut -d- -f2)
   res=$(tools/try_mutant.sh $d/patch.diff $tier $id 2>&1)
